@@ -375,7 +375,7 @@ func (c *Client) onSUBACK() error {
 	// return code for each Topic Filter/QoS pair. …”
 	// — MQTT Version 3.1.1, conformance statement MQTT-3.8.4-5
 	if len(topicFilters) != len(returnCodes) {
-		done <- fmt.Errorf("mqtt: %d return codes for SUBSCRIBE with %d topic filters", len(returnCodes), len(topicFilters))
+		done <- fmt.Errorf("%w; %d return codes for SUBSCRIBE with %d topic filters", ErrBreak, len(returnCodes), len(topicFilters))
 		return errProtoReset
 	}
 
